@@ -43,6 +43,89 @@ CLAIMED['C04'] = dict(
     technique='TLA+ protocol spec + TLC exhaustive/simulate with kills; replay into instrumented real code; independent decoder projection; TLC trace validation',
     design_ref='DESIGN.md §4 C04', engine='counter-file')
 
+def _c(text, note, technique, ref, engine):
+    return dict(text=text, note=note, technique=technique, design_ref=ref, engine=engine)
+
+CLAIMED['C01'] = _c(
+    'Approval.tla states the configuration semantics (Expand of chart:{buckets}, build approval, counter/stack approval against the rate and X, per-build sums, UploadReport) from the property text. '
+    'TLC checks nine sanity theorems on every enumerated vector (names incl. prefixes/suffixes/near-misses, rates x X x sample rate, builds, sums, shared counter/stack names) and a history machine for leftover reports; '
+    'every vector is replayed through the real upload.Run (file module proxy for the config, chosen X via crypto/rand.Reader, harness-owned server) and request bodies, local and upload reports are compared as (build, name, value) triples; '
+    'random configurations/file sets observed on the real code are decided by TLC (ApprovalTrace).',
+    'Rates and X are multiples of 1/8 (vectors) or 1/1024 (random) so float64 is exact; configs listing a name twice are outside the domain; weekly sums < 2^31; stack frames avoid the ditto form (C15).',
+    'TLA+ relational spec + TLC enumeration; vector replay into the real uploader; TLC validation of observed (input, output) records', 'DESIGN.md §4 C01', 'approval')
+CLAIMED['C02'] = _c(
+    'ModeFile/ConsentOps/Consent.tla: mode-file classes, gating relations (Uploadable, Sendable) and a state machine over mode file, clock, count files, reports and requests; TLC checks every clause as an action property on the decision '
+    'table of one run and on histories of runs/mode changes; table vectors and -simulate behaviours are replayed into the real upload.Run / counter API / SetModeAsOf with a SHA-256 directory snapshot and the server log compared '
+    'after each step, and random concrete scenarios over 2019-2037 are judged by TLC (ConsentTrace).',
+    'UTC day granularity; mode constant within a run; well-formed report names; server answers 200; stricter-than-model behaviour (uploading less) is a divergence warning, not a violation.',
+    'TLA+ state machine + TLC exhaustive/simulate; behaviour replay into real code with directory snapshots; TLC trace validation', 'DESIGN.md §4 C02', 'consent')
+CLAIMED['C06'] = _c(
+    'FileFormat.tla/FileFormatParse.tla define the abstract v1 file, WellFormed, ParseResult and corruption classes; TLC enumerates well-formed files and 76 single corruptions (pairs in thorough) with the expected verdict and checks five sanity '
+    'invariants; every vector is concretized to bytes and fed to the real counter.Parse/ReadFile (exact metadata and name->value maps for well-formed files, termination and no panic for all); random, mutated and spliced byte strings are '
+    'abstracted by an independent byte walk and decided by TLC (FileFormatParseTrace).',
+    'No coverage-guided fuzzing; well-formed is the spec\'s strict notion; hang detection by a 2 s goroutine timeout.',
+    'TLA+ relational spec + TLC enumeration of structural classes; vector replay into Parse; TLC validation of abstracted random inputs', 'DESIGN.md §4 C06', 'fileformat')
+CLAIMED['C07'] = _c(
+    'Uploader.tla models uploader.Run at the granularity of its file-system/HTTP calls (findWork, reports with create-then-write, deletes, upload with lock/marker) for several uploaders, re-runs, late-arriving count files and kills. '
+    'TLC checks OneLocalReport, ReadyMatchesLocal, DeleteOnlyAfterReport, ReportStable exhaustively and produces witness schedules into 13 race/kill windows; schedules, simulate walks and random schedules are executed on the real '
+    'instrumented uploader under the scheduler; TLC judges the C07 clauses on every observed directory state (UploaderObs) and validates each trace against the model (UploaderTrace).',
+    '<= 3 uploaders, <= 2 weeks, <= 3 count files; config handed to the uploader directly; per-build grouping and sums are C01; calendar boundaries are C09; an active and an unreadable count file are present in a subset of runs and must stay untouched.',
+    'TLA+ protocol spec + TLC exhaustive/simulate with kills; replay into instrumented real code; TLC trace validation and property evaluation on observed states', 'DESIGN.md §4 C07', 'uploader')
+CLAIMED['C08'] = _c(
+    'Same model and machinery as C07 with the delivery clauses: OneBodyPerWeek, NoResendAfterRecorded, MarkerOnlyAfterAck, AtMostOneAck, ServerErrorKeeps/ClientErrorDiscards (ReplyHandled on observed states) checked exhaustively by TLC '
+    'for all four server replies, re-runs and kills anywhere, EventuallyOnce under weak fairness; planned replies and kills are replayed on the real uploader against a harness-owned server.',
+    'A lost reply is modelled as no answer; the lock of a killed uploader is never removed (the model shows the week then stays undelivered, which the property allows).',
+    'TLA+ protocol spec + TLC exhaustive/simulate/liveness; replay into instrumented real code with planned server replies; TLC trace validation', 'DESIGN.md §4 C08', 'uploader')
+CLAIMED['C10'] = _c(
+    'FileFormat.tla gives HeaderLen, Place (with PlaceRel/least-fit), the FNV-1a hash on 16-bit limbs and the layout invariants; FileFormatOps.tla is a state machine of create/add/reopen by two library writers and the independent writer '
+    'with LayoutOK/Clauses/Exact/Monotone checked by TLC; place/hash/header vectors go into the real place/hash/mappedHeader, simulate walks are replayed on real files decoded after every step by the independent decoder, and random '
+    'operation runs are validated by TLC (FileFormatOpsTrace, FileFormatPlaceTrace).',
+    'Sequential operations (races are C04); a placement that satisfies the layout relation but differs from the documented allocator is only a divergence warning.',
+    'TLA+ spec + TLC enumeration/simulate; replay into real code with an independent decoder/writer; TLC trace validation', 'DESIGN.md §4 C10', 'fileformat')
+CLAIMED['C11'] = _c(
+    'Approval.tla adds ServerAccepts and the viewer operators; TLC checks ServerAcceptsUploader, ViewerAgreesWithUploader and single-field-perturbation rejection on every vector; each vector goes through the three real deciders '
+    '(uploader, the real upload handler chain, the viewer\'s newCounterFile/summary) and all verdicts are decided by TLC (ApprovalTrace).',
+    'X != 0; the viewer\'s verdict is compared ignoring rates; charts page out of scope.',
+    'TLA+ relational spec + TLC; differential replay through three real deciders; TLC validation', 'DESIGN.md §4 C11', 'approval')
+CLAIMED['C12'] = _c(
+    'Server.tla: field-wise validity (week, config semver, X, programs via the config semantics), Decision, object key and a state machine over the bucket with StoreIff/RoundTrip/RejectChangesNothing/Never5xx checked by TLC; '
+    'all request vectors deviating from a valid one in <= 2 (thorough 3) fields plus garbage are replayed through the real handler chain over FS buckets with the whole parent tree snapshotted, simulate histories are replayed, and '
+    'random requests are abstracted and decided by TLC (ServerTrace).',
+    'In-process handler chain; a body is one JSON value; "unspecified" field classes accept either outcome but never a 5xx or partial effect.',
+    'TLA+ spec + TLC enumeration/simulate; replay into the real handler chain; TLC trace validation', 'DESIGN.md §4 C12', 'server')
+CLAIMED['C13'] = _c(
+    'Worker.tla/WorkerChart.tla: buckets, Merge in any listing order, Chart as a function of the set of reports (ChartFold = ChartOf), MissingDayNotFound, checked exhaustively by TLC; simulate walks are replayed on the real handleMerge/'
+    'handleChart over FS buckets (incl. merged lines around 64 KiB) and random scenarios are decided by TLC (WorkerTrace); chart output must be byte-identical under permuted merge order.',
+    'FS bucket only; stored objects are valid reports; merged lines up to ~100 KiB.',
+    'TLA+ state machine + TLC exhaustive/simulate; replay into real handlers; TLC trace validation', 'DESIGN.md §4 C13', 'worker')
+CLAIMED['C14'] = _c(
+    'CrashParse.tla: abstract traceback lines, a declarative reading (Expected/Allowed/NonInterference) and an independent one-pass automaton whose agreement TLC checks on every report of the transition cover and of bounded sequences; '
+    'every dumped report is concretized several times with different filler text and run through the real telemetryCounterName; real crashes of a re-executed helper (panic, nil deref, inlining, recursion to depth 400, goroutines) '
+    'are compared with runtime.Callers of the same process; all records are decided by TLC (CrashParseTrace).',
+    'Symbolization is the Go runtime\'s; "16 frames" is decided as 16 program counters.',
+    'TLA+ spec + TLC enumeration; multi-concretization replay; differential oracle on real crashes; TLC validation', 'DESIGN.md §4 C14', 'crashparse')
+CLAIMED['C15'] = _c(
+    'StackName.tla: character-level Encode/Decode/Truncate with RoundTrip, Bounded, Identity, injectivity theorems checked by TLC on all short strings / frame sequences; generated call chains over a package library (dotted paths, methods, '
+    'generics, no-dot symbols) are driven into the real StackCounter.Inc and EncodeStack/DecodeStack, and every record (name, expansion, cache behaviour, file value) is decided by TLC (StackNameTrace).',
+    'The uncompressed rendering uses runtime.CallersFrames (trusted); known finding F18 (generic instantiations share a name).',
+    'TLA+ spec + TLC enumeration; replay through generated real call stacks; TLC validation', 'DESIGN.md §4 C15', 'stackname')
+CLAIMED['C17'] = _c(
+    'ChartConfig*.tla: the documented syntax as a fold over abstract lines, Render/Parse round trip, MinOfMins/Required generation and PadOK, with six sanity theorems checked by TLC on all short line sequences and record sets; '
+    'every vector is concretized and parsed by the real chartconfig.Parse, generate/padVersions are run with versionsForTesting, random texts are lexed independently and decided by TLC (ChartConfigTrace).',
+    'Valid record = documented syntax (values non-empty, no #, braces only in counter); extra listed versions are not judged.',
+    'TLA+ spec + TLC enumeration; replay into Parse/generate/padVersions; TLC validation', 'DESIGN.md §4 C17', 'chartconfig')
+CLAIMED['C18'] = _c(
+    'Storage.tla: buckets as maps with Write/Read/List, ResultFromHistory, Confined, NoConflicts and frame properties checked exhaustively by TLC; simulate walks are replayed on real FSBuckets under six name alphabets comparing every '
+    'result and the complete file tree, random histories are validated by TLC (StorageTrace), and the names the upload/merge/chart services construct for hostile inputs are checked to stay inside their bucket.',
+    'FS backend, ASCII ordinary names; names conflicting by path prefix are excluded.',
+    'TLA+ state machine + TLC exhaustive/simulate; replay into the real bucket; TLC trace validation', 'DESIGN.md §4 C18', 'storage')
+CLAIMED['C19'] = _c(
+    'GotelemetryOps/Gotelemetry.tla: directory entries with real name strings, CleanStep/ModeStep and the clauses CleanRemovesData, CleanNothingElse, ModeOnlyMode, NoOpWhenSame, Records checked by TLC over a family of initial '
+    'directories x mode-file classes x command sequences; (directory, command) pairs, simulate behaviours and random directories are executed with the real gotelemetry binary built from the scratch tree (HOME/XDG redirected) and each '
+    'command is judged by TLC (GotelemetryTrace).',
+    'Empty directories / symlinks with data-file names are excluded; the current date is the real UTC date.',
+    'TLA+ state machine + TLC exhaustive/simulate; replay with the real binary; TLC trace validation', 'DESIGN.md §4 C19', 'gotelemetry')
+
 NOT_YET = 'check not built yet in this session (see DESIGN.md §8 build order); will be claimed when its TLA+ module and conformance harness exist'
 
 checks = []
